@@ -256,7 +256,9 @@ Record c06case := {
   i_alg_same : bool;                 (* utils...feasible(X, info, linear, effective vt, effective rt) *)
   i_alg_default : bool;              (* utils...feasible(X, info, linear) *)
   i_cur : list (list (Q * Q));       (* constraint_current(X, linear=linear) as (re, im) *)
-  i_info_shape : option (nat * nat)  (* infrastructure_info().constraint_matrix.shape; None = raised *)
+  i_info_shape : option (nat * nat); (* infrastructure_info().constraint_matrix.shape; None = raised *)
+  (* the same three calls on ChargingNetwork.from_json(network.to_json()) (+ an Interface on it), when asked *)
+  i_reload : option (bool * option bool * bool)
 }.
 
 Definition Qpair_close (m i : Q * Q) : bool := Qclose (fst m) (fst i) && Qclose (snd m) (snd i).
@@ -280,6 +282,21 @@ Definition check_c06 (c : c06case) : bool :=
           && Bool.eqb (alg_is_feasible_default QF inf X T lin) (i_alg_default c)
       | Err _, None => true
       | _, _ => false
+      end)
+  && (match i_reload c with
+      | None => true
+      | Some (rnet, riface, ralg) =>
+          Bool.eqb (net_is_feasible QF n X T lin (c_ovt c) (c_ort c)) rnet
+          && (match iface_is_feasible QF n (c_map c) lin (c_ovt c) (c_ort c), riface with
+              | Ok b, Some b' => Bool.eqb b b'
+              | Err _, None => true
+              | _, _ => false
+              end)
+          && (match infrastructure_info QF n with
+              | Ok inf => Bool.eqb (alg_is_feasible QF inf X T lin (opt_or QF (c_ovt c) (n_vt n))
+                                                    (opt_or QF (c_ort c) (n_rt n))) ralg
+              | Err _ => false
+              end)
       end)
   && (match n_limits n with
       | [] => true                          (* constraint_current is not called by is_feasible *)
